@@ -45,11 +45,16 @@ def generate(rng, tier):
             items = [enc(rng.randint(0, 60)) for _ in range(rng.choice([0, 1, 5, 12, 30]))]
             trace = muxprop.single_trace(items, (rng.choice([0, 4]),))
         cases.append({'ast': ast, 'trace': trace, 'km': km, 'ctx': ctx})
-    for _ in range({'quick': 10, 'thorough': 200, 'search': 3}[tier]):
-        # scale: hundreds of groups under one parent, hundreds of live parents, long groups
+    fixed = [(['id'], 'many_groups'), (['mod', 300], 'many_groups'), (['mod', 257], 'many_groups'), (['id'], 'many'),
+             (['mod', 2], 'long'), (['comp', ['mod', 300], ['tofloat']], 'many_groups')]
+    for j in range({'quick': 10, 'thorough': 200, 'search': 3}[tier]):
+        # scale: hundreds of groups under one parent, hundreds of live parents, long groups; the first six are the same
+        # (key mapper, shape) pairs in every run
         km = rng.choice([['id'], ['mod', 300], ['mod', 257], ['mod', 2], ['comp', ['mod', 300], ['tofloat']]])
         inner = [rng.choice([['count', 1], ['to_list'], ['scan', ['add'], enc(0), 0, None], ['last']])]
         shape = rng.choice(['many_groups', 'many_groups', 'long', 'long2', 'many'])
+        if j < len(fixed) and tier != 'search':
+            km, shape = fixed[j]
         cases.append({'ast': [['group', km, [['tap', 1]] + inner]], 'trace': muxgen.gen_trace_scale(rng, shape), 'km': km,
                       'ctx': 'top', 'scale': True})
     return cases
